@@ -204,7 +204,11 @@ impl InterpDriver {
             15 => vec![0x01, 0x00, 0x00, 0x00, 0x00],
             16 => rng.bytes(520),
             17 => {
-                if rng.chance(1, 8) {
+                if rng.chance(1, 60) {
+                    // elements around the 8- and 16-bit length boundaries (PUSHDATA1/2/4 encodings, SPLIT / CAT / SIZE operands)
+                    let n = *rng.pick(&[255usize, 256, 257, 65_535, 65_536, 65_537, 70_000]);
+                    rng.bytes(n)
+                } else if rng.chance(1, 8) {
                     rng.bytes(4096)
                 } else {
                     rng.bytes(33)
@@ -270,8 +274,10 @@ impl InterpDriver {
             }
         } else if n <= 255 {
             json!({"pd": 76, "d": h})
-        } else {
+        } else if n <= 65_535 {
             json!({"pd": 77, "d": h})
+        } else {
+            json!({"pd": 78, "d": h})
         }
     }
 
